@@ -53,7 +53,7 @@ M = {
  "C14d-m1": ("C14", "Scalar::batch_invert builds its scratch vector with push (same idea as C14-m1 / C14c-m1, found independently)", "batch size n >= 5", {}),
  "C14d-m2": ("C14", "EdwardsPoint::zeroize drops the T line (same idea as C14b-m2, found independently)", "inspection of the wiped point's storage", {}),
  "C16d-m1": ("C16", "TryFrom<&[u8]> for SigningKey takes the first 32 bytes of a longer slice", "serde feature, a byte-string format (bincode), a payload longer than 32 bytes", {}),
- "C16d-m2": ("C16", "TryFrom<&pkcs8::KeypairBytes> for SigningKey treats an undecodable embedded public key as absent", "pkcs8 feature; a PKCS#8 v2 document whose public-key bytes do not decompress", {"C16": "NOT CAUGHT: the driver is built without ed25519-dalek's pkcs8 feature, so the PKCS#8 decoding path is outside what the checks observe (a stated limit, DESIGN 14.11)"}),
+ "C16d-m2": ("C16", "TryFrom<&pkcs8::KeypairBytes> for SigningKey treats an undecodable embedded public key as absent", "pkcs8 feature; a PKCS#8 v2 document whose public-key bytes do not decompress", {"C16": "MISSED at first (the driver was built without ed25519-dalek's pkcs8 feature, so PKCS#8 decoding was outside what the checks observed); caught after a pkcs8 build and the serde.pkcs8 events (honest, mismatched, undecodable, non-canonical embedded keys; SubjectPublicKeyInfo; round trips) were added"}),
  "C01b-m1": ("C01", "u32 sub_assign adds 2p instead of 16p before subtracting", "32-bit serial backend; a subtrahend with more than one excess bit (still inside the documented b < 1.75)", {"C01": "caught (s32 fe.sub at the limb alphabet's bound)", "C11": "the checked build also panics on it"}),
  "C01b-m2": ("C01", "IFMA F51x4Reduced::square pre-doubles x0 (madd52 reads only the low 52 bits)", "nightly unstable_avx512 build on an avx512ifma CPU; a reduced limb at or above 2^51", {"C01": "caught (v512 vec.op1 square on limbs produced by reduce at 2^51)"}),
  "C02b-m1": ("C02", "Scalar52::from_bytes_wide fuses the two Montgomery reductions (exceeds the reducer's input bound)", "low 260 bits within 0.2% of 2^260, large high part: about 1 in 1.2 million random inputs", {"C02": "caught by the reducer-bound family added after reading this change's class (first run: 1 hit of 400; family enlarged to 4000: 3+ hits); AP_MontReduce52 states the bound for the specification"}),
